@@ -94,6 +94,11 @@ CONTRACTS = {
                   2: {'inv': [], 'counter': '_iti',
                       # every start i >= 1 with i + d*(k-1) <= N was used, and no other
                       'exit_ensures': ['_iti == N - (1 + _itd) * (k - 1)', '_iti >= 1']}},
+        # the same statement as a value, for the callers (VanDerWaerden): the sequence of the yielded progressions
+        'value_form': 'the value of _vdw_ap_generator(N, k) at a call site is the sequence aps(N, k) of the lists its proved yield clauses describe (correspondence by reading)',
+        'returns_expr': 'aps(N, k)',
+        'value_facts': ['forall(lambda j: implies(0 <= j and j < clen(aps(N, k)), ilen(cget(aps(N, k), j)) == k and '
+                        'minof(cget(aps(N, k), j)) >= 1 and maxof(cget(aps(N, k), j)) <= N), lambda j: cget(aps(N, k), j))'],
         'yields_at': {
             0: ['len(yielded) == 1', 'yielded[0] == 1 + _it', 'yielded[0] <= N'],
             1: ['len(yielded) == k', 'yielded[k - 1] <= N',
